@@ -21,7 +21,8 @@
 // before and after Scan (tree, cwd unchanged; tmp back to its seeded state).
 //
 // (b) images: raw tar layers from the entry alphabet in image.go (names/targets made of
-// '..', '.', the empty segment, 'a', 'out2', 300 x 'a', relative and absolute; regular/dir/symlink/hardlink).
+// '..', '.', the empty segment, 'a', 'out2', 300 x 'a', case variants of the target's and its
+// ancestors' names (OUT exists in the sandbox, Out does not), relative and absolute; regular/dir/symlink/hardlink).
 // Blocks, simplest first: all single entries of the full alphabet x 4 entry points x every
 // configuration; all ordered pairs over the pair alphabet (1 layer and split over 2 layers);
 // shapes (layer-less images, empty-tar layers, history-only/missing/mismatched history); spellings
